@@ -20,6 +20,8 @@ def run(ctx):
     PV.a5_application_discipline(ctx)
     PV.a7_pairing(ctx)
     PV.a7_zip_alignment(ctx)
+    PV.a8_memo_key_coherence(ctx)
+    ctx.floor("A8", 1)
     T.check_set_empty_writers(ctx)
     # 'equal classes always receive the same label, unequal classes different ones'
     T.check_append_only(ctx)
